@@ -18,6 +18,10 @@ CHECKS = [
       technique="deterministic simulation: seeded single-threaded executor drives the real Resolver; handler futures park on simulator-owned gates so the tape decides every completion order, spurious wake and handler stall",
       text="Seeded search over handler tables, DID lists and completion orders of the concurrently polled handler futures inside the real resolve_multiple (FuturesUnordered + try_collect); oracle: dispatch by method, exactly one entry per distinct DID equal to single resolution for every completion order, failure if any fails, no lost wake-up / busy loop, did:jwk expansion. Sampling, not enumeration: evidence reports the completion permutations reached (all 24 orders of 4 and all 120 of 5 are required reach probes).",
       note="Handlers are stubs (that is the seam). The HashSet iteration order inside resolve_multiple is not controlled; the oracle and the trace are built to be independent of it (checked by the determinism self-test across processes)."),
+ dict(id="C15", engine="ks", level="exploration", design="§4.2, §5 C15",
+      technique="deterministic simulation: 2-16 client tasks on one shared JwkMemStore/KeyIdMemstore under a seeded executor (tape picks the next task and every hook yield), per-object linearizability check of the recorded history against a sequential map model plus direct cryptographic clauses",
+      text="Seeded search over client scripts and interleavings at the lock-acquisition and critical-section hook points of the real in-memory stores (real tokio RwLock); oracle: linearizability per key id / per method digest against the sequential contract, exactly one winner among racing insert_key_id calls, signatures verify under the stored key and under no other stored key, generate output public-only with kid = RFC 7638 thumbprint and requested alg, fresh key ids, invalid inserts refused, no deadlock/lost wake-up.",
+      note="Interleavings are explored at await points (hooks + lock waits) on a single-threaded executor; preemption between non-awaiting statements is outside this tier. OS randomness is replaced through the cfg hooks. Stronghold is not simulated."),
 ]
 
 def main():
